@@ -27,7 +27,7 @@ EXHAUSTIVE_SUBDOMAINS = {
     'quick': ['n_word<=6 x n_frac -8..n_word+8 x 10 modes x quarter-LSB grid over 3x range: float64-array carriers x {ctor,call,set_val,setitem}, scalar float ctor'],
     'thorough': ['n_word<=6 grid as quick, plus n_word<=5 grid x every exact scalar carrier x 4 routes'],
 }
-REQUIRED_CLASSES = {'tie': 200, 'over': 200, 'under': 200, 'nfrac<0': 100, 'nfrac>nword': 100}
+REQUIRED_CLASSES = {'tie': 200, 'over': 200, 'under': 200, 'nfrac<0': 100, 'nfrac>nword': 100, 'tinyfloat': 1000, 'tinyfloat:product-underflows': 20}
 
 # 'setitem_int' = indexed assignment into an object that was built from python ints (its value dtype is int when n_frac<=0)
 ROUTES = ('ctor', 'call', 'set_val', 'setitem', 'setitem_int')
@@ -272,6 +272,43 @@ def check_bigfloat(ctx, case):
                  {'neighbour': nb, 'expected': exp_nb, 'got': codes_[1], 'v': v})
 
 
+def check_tinyfloat(ctx, case):
+    """Floats of tiny magnitude (subnormals, smallest normals): the directed roundings depend only on their sign, also when the
+    scaled product v*2^n_frac is not representable as a double (n_frac < 0)."""
+    fmt = tuple(case['fmt'])
+    s, w, f = fmt
+    v = float.fromhex(case['hex'])
+    route, rounding, ovf = case['route'], case['rounding'], case['overflow']
+    q = M.quant(Fraction(v), s, w, f, rounding, ovf)
+    exp = q[0]
+    ctx.ev()
+    ctx.cls('tinyfloat')
+    underflows = f < 0 and v != 0 and (v * 2.0 ** f) == 0.0
+    if underflows:
+        ctx.cls('tinyfloat:product-underflows')
+    ctx.nontrivial(('tinyfloat', fmt, rounding, ovf, case['hex'], route, case.get('cont')))
+    ctx.sample(case, True)
+    cont = case.get('cont', 'scalar')
+    nb = float(C.v_from_x4(int(case.get('nb_x4', 0)), f))
+    exp_nb = M.quant(Fraction(nb), s, w, f, rounding, ovf)[0]
+    obj = v if cont == 'scalar' else np.array([v, nb])
+    sig = 'tinyfloat/%s/%s' % (route, 'product-underflows' if underflows else 'exact-product')
+    ok, res = ctx.guard(case, store, fmt, (rounding, ovf), obj, route, 'scalar' if cont == 'scalar' else '1d', 2, (1, 2), sig_prefix=sig + '/')
+    if not ok:
+        return
+    x, sel = res
+    try:
+        codes_ = stored_codes(x, sel)
+    except ValueError as e:
+        ctx.fail(sig + '/non-integer-code', case, {'error': str(e)})
+        return
+    if codes_[0] != exp:
+        ctx.fail(sig + '/code', case, {'expected': exp, 'got': codes_[0], 'v': v})
+        return
+    if cont != 'scalar' and codes_[1] != exp_nb:
+        ctx.fail(sig + '/neighbour-code', case, {'neighbour': nb, 'expected': exp_nb, 'got': codes_[1], 'v': v})
+
+
 def check_complex(ctx, case):
     fmt = tuple(case['fmt'])
     mode = tuple(case['mode'])
@@ -441,7 +478,7 @@ def check_grid(ctx, case):
                 return
 
 
-CHECKS = {'store': check_store, 'bigfloat': check_bigfloat, 'complex': check_complex, 'grid': check_grid}
+CHECKS = {'store': check_store, 'bigfloat': check_bigfloat, 'complex': check_complex, 'grid': check_grid, 'tinyfloat': check_tinyfloat}
 
 
 def replay(ctx, case):
@@ -528,6 +565,23 @@ def task_hyp_bigfloat(ctx, n):
 
 
 @st.composite
+def st_tinyfloat_case(draw):
+    fmt = draw(C.st_fmt())
+    m = draw(st.one_of(st.integers(1, 16), st.integers(1, 2 ** 52 - 1), st.sampled_from([1, 2, 3, 255, 256, 257])))
+    v = draw(st.one_of(st.just(m * 5e-324), st.sampled_from([2.2250738585072014e-308, 1e-300, 2.0 ** -1000, 2.0 ** -1022, 2.0 ** -1023 * 3, 2.0 ** -200]),
+                       st.floats(min_value=0.0, max_value=1e-290, exclude_min=True)))
+    if draw(st.booleans()):
+        v = -v
+    return {'check': 'tinyfloat', 'fmt': list(fmt), 'hex': float(v).hex(), 'route': draw(st.sampled_from(ROUTES)),
+            'rounding': draw(st.sampled_from(C.ROUNDINGS)), 'overflow': draw(st.sampled_from(['saturate', 'wrap'])),
+            'cont': draw(st.sampled_from(['scalar', '1d'])), 'nb_x4': C.clamp_sig_bits(draw(C.st_x4(fmt, limit_bits=50)), 53)}
+
+
+def task_hyp_tinyfloat(ctx, n):
+    run_given(ctx, st_tinyfloat_case(), check_tinyfloat, n, ctx.task_seed)
+
+
+@st.composite
 def st_complex_case(draw):
     fmt = draw(C.st_fmt(max_w=40))
     s, w, f = fmt
@@ -566,4 +620,6 @@ def tasks(tier, scale=1.0):
         out.append(('hyp-bigfloat-%d' % i, 'task_hyp_bigfloat', {'n': nh // 2}))
     for i in range(4):
         out.append(('hyp-complex-%d' % i, 'task_hyp_complex', {'n': nh // 2}))
+    for i in range(2):
+        out.append(('hyp-tinyfloat-%d' % i, 'task_hyp_tinyfloat', {'n': nh // 2}))
     return out
